@@ -317,6 +317,7 @@ fn run_pipeline<const N: usize>(cfg: &Cfg, sched: &'static Sched, header_out: &m
                 header_out.push_str(&format!(" c{k}.{j}={a}"));
             }
             TOPO.with(|t| *t.borrow_mut() = (tids.clone(), Some(sched)));
+            *HEADER.lock().unwrap() = header_out.clone();
             // ---- the managed part starts here
             sched.enter_main();
             let handle = executor.spawn();
@@ -341,16 +342,32 @@ pub fn run_one(args: &[String]) -> ! {
     let sched: &'static Sched = Box::leak(Box::new(Sched::new(parse_strategy(&cfg.sched), cfg.budget)));
     verif_sync::set_hook(&sched::HOOK);
     *sched::CURRENT.lock().unwrap() = Some(sched);
+    // a run that is over early (deadlock / budget / replay divergence) is reported from inside the scheduling point
+    // of the main thread: unwinding it would run `Drop` of the sequencer, whose `signal()` is itself a scheduling
+    // point (a panic inside a destructor during cleanup aborts the process and loses the trace)
+    let _ = sched::ON_RUN_OVER.set(Box::new(move || {
+        let status = sched.m.lock().unwrap().status.clone().unwrap_or_else(|| "panic".into());
+        let header = HEADER.lock().unwrap().clone();
+        report(sched, &header, status)
+    }));
     let mut header = String::new();
     let res = std::panic::catch_unwind(std::panic::AssertUnwindSafe(|| {
         with_n!(cfg.n, run_pipeline, &cfg, sched, &mut header);
     }));
-    let g = sched.m.lock().unwrap();
-    let status = match (&res, &g.status) {
+    let status = match (&res, &sched.m.lock().unwrap().status) {
         (Ok(()), _) => "ok".to_string(),
         (Err(e), Some(s)) if e.is::<RunOver>() => s.clone(),
         (Err(_), _) => "panic".to_string(),
     };
+    report(sched, &header, status)
+}
+
+/// header tokens of the running case (probed addresses), for the early-exit report
+static HEADER: std::sync::Mutex<String> = std::sync::Mutex::new(String::new());
+
+/// prints the trace and the `end` line, then exits the process
+fn report(sched: &'static Sched, header: &str, status: String) -> ! {
+    let g = sched.m.lock().unwrap();
     let out = std::io::stdout();
     let mut o = std::io::BufWriter::new(out.lock());
     // addresses -> stable location names `L<k>` / `L<k>+<off>` (contiguous words of one allocation share a base)
